@@ -5,7 +5,7 @@
    run) with the order in which prange iterations execute as a parameter; [is_sched s] says
    that s permutes the iteration list. *)
 From Coq Require Import List ZArith.
-From GS Require Import Num Loops Summator_gen Krigesum_gen Estimator_gen C15_KernelSpec C15_SummatorProofs C15_VarioSpec C15_VarioProofs.
+From GS Require Import Num Loops Summator_gen Krigesum_gen Estimator_gen C15_KernelSpec C15_SummatorProofs C15_VarioSpec C15_VarioProofs C15_DirSpec C15_DirProofs.
 
 Theorem C15_summate_any_schedule :
   forall (T : Type) (O : NumOps T) sched ks z1 z2 pos, is_sched sched ->
@@ -51,6 +51,13 @@ Theorem C15_ma_structured_any_schedule :
     ma_structured_sched O sched f mask et = ma_structured_spec O f mask et.
 Proof. exact @ma_structured_any_schedule. Qed.
 Print Assumptions C15_ma_structured_any_schedule.
+
+Theorem C15_directional_any_schedule :
+  forall (T : Type) (O : NumOps T) sched f edges pos direction tol bw sep et, is_sched sched ->
+    directional_sched O sched f edges pos direction tol bw sep et
+    = directional_spec O f edges pos direction tol bw sep et.
+Proof. exact @directional_any_schedule. Qed.
+Print Assumptions C15_directional_any_schedule.
 
 (* non-vacuity: reversing the iteration list is a schedule, and the spec is a plain value *)
 Theorem C15_schedules_exist : is_sched (fun l => l) /\ is_sched (@rev nat).
